@@ -275,7 +275,8 @@ def audit(prop_id, theorems, modules):
 class Lean:
     """the model behind the line protocol; one process per batch"""
 
-    def __init__(self):
+    def __init__(self, driver="drivers/Topo.lean"):
+        self.driver = driver
         self.lines = 0
         self.calls = 0
 
@@ -284,7 +285,7 @@ class Lean:
         if not ops:
             return []
         data = "\n".join(json.dumps(o, separators=(",", ":")) for o in ops) + "\n"
-        p = subprocess.run(["lake", "env", "lean", "--run", "Driver.lean"], cwd=LEAN, input=data,
+        p = subprocess.run(["lake", "env", "lean", "--run", self.driver], cwd=LEAN, input=data,
                            stdout=subprocess.PIPE, stderr=subprocess.PIPE, text=True, timeout=timeout)
         out = [l for l in p.stdout.split("\n") if l.strip()]
         self.lines += len(ops)
